@@ -58,10 +58,13 @@
     * a starred import whose module has no origin / no Python source is outside
       (`crash "Outside:star-…"`; C07's corpus covers `from math import *`);
     * follow level 1: `follow_local_imports` is true, pip / stdlib modules are not followed;
-    * files are told apart by their position in `(target_ir, *import_irs.values())`; the code tells
-      them apart by path, so a followed module whose origin is spelled exactly like the target's
-      path (an absolute target path re-imported through a cycle) is outside
-      (`crash "Outside:target-reimported-under-its-own-path"`);
+    * FileIrs are told apart by their position in `(target_ir, *import_irs.values())` (each has its own
+      entries in the store), the code tells FILES apart by path (`location.defined_in`): a followed
+      module whose origin is spelled exactly like the target's path (an absolute target path met again
+      through an import cycle) is a second FileIr of the SAME file — `sameFile` / `canonH`: one
+      equality class per (path, Call symbol), `__is_defined_in` / `__resolve_real_class_target` by
+      path (`originAt`). Two FileIrs of one path that differ (`pathsConsistent` false) are outside
+      (`crash "Outside:one-path-analysed-differently"`);
     * ties of equal-named Call symbols inside one function come in hash order, as in `Pipeline`.
 -/
 import RattrModel.Pipeline
@@ -273,9 +276,6 @@ def analyseAll (P : Project) : Outcome (AFile × List AFile × List Diag) :=
     | .fatal ds d => .fatal ds d
     | .crash e => .crash e
     | .ok (irs, ds) =>
-      if irs.any (fun a => a.origin == P.target.origin) then
-        .crash "Outside:target-reimported-under-its-own-path".toList
-      else
       match FileA.analyseWith P.env (mnOf P.target) (factsOf P P.target) r.ctx P.target.body with
       | .fatal s d => .fatal (ds ++ s.diags) d
       | .crash _ e => .crash e
@@ -433,8 +433,36 @@ def allCalls2 (fs : List AFile) : List CallSym := fs.flatMap fun f => Pipeline.a
 
 def cidBase (fs : List AFile) (h : Nat) : Nat := ((fs.take h).map fun f => (Pipeline.allCalls f.ir).length).sum
 
+/-- Two analysed files the code cannot tell apart: `symbol.location.defined_in` is the PATH the file
+was analysed under (`Config().state.current_file`), so the target given by its ABSOLUTE path and the
+same file met again by the import BFS (an import cycle through the target: `spec.origin` is that very
+path, and `seen_module_origins` starts empty) are ONE file for `seen` and for `__is_defined_in`,
+although they are two FileIrs (two entries of the store). Same path, same derived module name, same
+Call symbols. -/
+def sameFile (a b : AFile) : Bool :=
+  decide (a.origin = b.origin ∧ a.derived = b.derived ∧ Pipeline.allCalls a.ir = Pipeline.allCalls b.ir)
+
+/-- index (counted from `i`) of the first file of the list that cannot be told apart from `f` -/
+def firstSame (f : AFile) : Nat → List AFile → Option Nat
+  | _, [] => none
+  | i, g :: r => if sameFile g f then some i else firstSame f (i + 1) r
+
+/-- the first file (target first, then `import_irs` in order) that file `h` cannot be told apart from -/
+def canonH (fs : List AFile) (h : Nat) : Nat :=
+  match fs[h]? with
+  | none => h
+  | some f => (firstSame f 0 fs).getD h
+
+/-- one path, one analysis: two FileIrs with the same origin are `sameFile` (analysis is a function
+of the file and of the path it is entered under); a project where this fails is outside the fragment -/
+def pathsConsistent (fs : List AFile) : Bool :=
+  fs.all fun a => fs.all fun b => a.origin != b.origin || sameFile a b
+
+/-- the call record of Call symbol `c` held by a function of file `h`: its equality class is
+(path of the file, Call symbol) — numbered in the FIRST file with that path -/
 def callRec2 (fs : List AFile) (h : Nat) (c : CallSym) : CallRec :=
-  { cid := cidBase fs h + Pipeline.cidOf (callsAt fs h) c, name := c.name, args := ⟨c.args, c.kwargs⟩ }
+  { cid := cidBase fs (canonH fs h) + Pipeline.cidOf (callsAt fs (canonH fs h)) c, name := c.name,
+    args := ⟨c.args, c.kwargs⟩ }
 
 def fnInfo2 (ord : List CallSym → List CallSym) (fs : List AFile) (h : Nat) (p : Sym × IR) : FnInfo :=
   { iface := p.1.iface.getD Pipeline.emptyIface, calls := (ord p.2.calls).map (callRec2 fs h) }
@@ -560,6 +588,8 @@ def runWith2 (ord : List CallSym → List CallSym) (P : Project) : Outcome (Resu
   | .fatal ds d => .fatal ds d
   | .crash e => .crash e
   | .ok (t, irs, ds) =>
+    if !pathsConsistent (t :: irs) then .crash "Outside:one-path-analysed-differently".toList
+    else
     match results2 ord P t irs with
     | .ok (doc, ds') => .ok (doc, ds ++ ds')
     | .fatal ds' d => .fatal (ds ++ ds') d
